@@ -42,6 +42,7 @@ type HarnessCfg struct {
 	AllowBlocked bool     `json:"allow_blocked"`
 	AllowPanic   bool     `json:"allow_panic"`
 	NativeReplay bool     `json:"native_replay"`
+	ReinitGlobals bool    `json:"reinit_globals"`
 	What         string   `json:"what"`
 }
 
@@ -194,7 +195,7 @@ func check(id, tier string) int {
 	ld, err := loadFor(pc, scratch)
 	if err != nil {
 		fmt.Fprintln(os.Stderr, "error: loading /repo with harness overlay failed (the tree or the harness does not type-check):\n", err)
-		writeEvidence(pc, tier, seed, nil, nil, time.Since(t0), []string{"load failed: " + err.Error()}, 0)
+		writeEvidence(pc, tier, seed, nil, nil, time.Since(t0), []string{"load failed: " + err.Error()}, 0, 0)
 		return 2
 	}
 	loadS := time.Since(tl).Seconds()
@@ -207,6 +208,7 @@ func check(id, tier string) int {
 	var inconclusive []string
 	var newViolations []*sx.Violation
 	knownHit := map[int]bool{}
+	nativeAgreed, nativeTotal := 0, 0
 
 	for _, h := range pc.Harnesses {
 		tc := h.Quick
@@ -220,7 +222,13 @@ func check(id, tier string) int {
 			Name: h.Name, Pkg: ld.Pkgs[h.Pkg], Entry: h.Entry, Params: tc.Params, Covers: h.Covers,
 			Limits:  sx.Limits{MaxSteps: tc.MaxSteps, MaxDepth: tc.MaxDepth, MaxEnum: tc.MaxEnum},
 			GoMode:  h.GoMode, MapRev: tc.MapRev, Timeout: tc.Timeout, MaxPaths: tc.MaxPaths, Samples: 3,
-			AllowBlocked: h.AllowBlocked, AllowPanic: h.AllowPanic,
+			AllowBlocked: h.AllowBlocked, AllowPanic: h.AllowPanic, ReinitGlobals: h.ReinitGlobals, Seed: int64(seed),
+		}
+		if h.NativeReplay && os.Getenv("VERIF_NO_NATIVE_DIFF") == "" {
+			spec.NativeVectors = 16
+			if tier == "thorough" {
+				spec.NativeVectors = 48
+			}
 		}
 		if w := os.Getenv("VERIF_WORKERS"); w != "" {
 			spec.Workers, _ = strconv.Atoi(w)
@@ -240,6 +248,19 @@ func check(id, tier string) int {
 		}
 		for _, e := range res.EngineErrors {
 			problems = append(problems, h.Name+": "+e)
+		}
+		// translator validation: concrete models of sampled completed paths are
+		// run through the natively compiled harness; the real build must agree
+		// with the executor (no failed assertion, no failed assumption, same
+		// sequence of choices) on every one of them.
+		if spec.NativeVectors > 0 && len(res.Violations) == 0 && len(res.EngineErrors) == 0 {
+			agreed, total, bad := nativeDifferential(pc, &h, tier, res, scratch)
+			nativeAgreed += agreed
+			nativeTotal += total
+			if bad != "" {
+				problems = append(problems, h.Name+": translator validation failed — the natively compiled harness disagrees with the executor: "+bad)
+			}
+			fmt.Printf("[%s %s] harness %-28s translator validation: %d/%d sampled paths agree with the native build\n", id, tier, h.Name, agreed, total)
 		}
 		if len(res.MissingCover) > 0 && len(res.Violations) == 0 && len(res.EngineErrors) == 0 {
 			problems = append(problems, fmt.Sprintf("%s: vacuous — cover labels never reached: %v", h.Name, res.MissingCover))
@@ -327,7 +348,7 @@ func check(id, tier string) int {
 		}
 		exit = 3
 	}
-	writeEvidence(pc, tier, seed, cfgs, results, time.Since(t0), append(problems, inconclusive...), nviol)
+	writeEvidence(pc, tier, seed, cfgs, results, time.Since(t0), append(problems, inconclusive...), nviol, nativeAgreed)
 	if exit == 0 {
 		fmt.Printf("[%s %s] property held on everything explored (%.1fs)\n", id, tier, time.Since(t0).Seconds())
 	}
@@ -432,6 +453,27 @@ func writeReplay(path string, pc *PropCfg, hc *HarnessCfg, tier string, v *sx.Vi
 // nativeReplay compiles the harness natively (go test -overlay) and runs the
 // recorded vector against the real build.
 func nativeReplay(pc *PropCfg, hc *HarnessCfg, vector string, scratch string) (string, string) {
+	text, errText := nativeRun(pc, hc, scratch, "VERIF_REPLAY="+vector, "verifRunNative")
+	if errText != "" {
+		return errText, "n/a: " + errText
+	}
+	for _, line := range strings.Split(text, "\n") {
+		if strings.HasPrefix(line, "VERIF-NATIVE-RESULT ") {
+			r := strings.TrimPrefix(line, "VERIF-NATIVE-RESULT ")
+			switch {
+			case strings.HasPrefix(r, "assert"), strings.HasPrefix(r, "panic"):
+				return text, "reproduced"
+			default:
+				return text, "not-reproduced"
+			}
+		}
+	}
+	return text, "n/a: native replay did not run: " + firstLines(text, 3)
+}
+
+// nativeRun compiles the harness natively (go test -overlay) and runs the
+// given runner (verifRunNative / verifRunNativeBatch) on its entry function.
+func nativeRun(pc *PropCfg, hc *HarnessCfg, scratch string, env string, runner string) (string, string) {
 	dir := pkgDir(hc.Pkg)
 	repl := map[string]string{}
 	pkgName := ""
@@ -459,34 +501,66 @@ func nativeReplay(pc *PropCfg, hc *HarnessCfg, vector string, scratch string) (s
 	}
 	rt, err := os.ReadFile(filepath.Join(verifDir, "harness/rt/rt_native.go.tmpl"))
 	if err != nil {
-		return err.Error(), "n/a: " + err.Error()
+		return "", err.Error()
 	}
 	rtFile := filepath.Join(scratch, "native_rt.go")
 	os.WriteFile(rtFile, []byte(strings.Replace(string(rt), "package PKGNAME", "package "+pkgName, 1)), 0o644)
 	repl[filepath.Join(dir, "zz_verif_rt.go")] = rtFile
-	testFile := filepath.Join(scratch, "native_test.go")
-	os.WriteFile(testFile, []byte(fmt.Sprintf("package %s\n\nimport \"testing\"\n\nfunc TestVerifNativeReplay(t *testing.T) { verifRunNative(%s) }\n", pkgName, hc.Entry)), 0o644)
+	testFile := filepath.Join(scratch, "native_test_"+runner+"_"+sanitize(hc.Entry)+".go")
+	os.WriteFile(testFile, []byte(fmt.Sprintf("package %s\n\nimport \"testing\"\n\nfunc TestVerifNativeReplay(t *testing.T) { %s(%s) }\n", pkgName, runner, hc.Entry)), 0o644)
 	repl[filepath.Join(dir, "zz_verif_native_test.go")] = testFile
 	ov, _ := json.Marshal(map[string]interface{}{"Replace": repl})
-	ovFile := filepath.Join(scratch, "overlay.json")
+	ovFile := filepath.Join(scratch, "overlay-"+runner+"-"+sanitize(hc.Entry)+".json")
 	os.WriteFile(ovFile, ov, 0o644)
 	cmd := exec.Command("go", "test", "-vet=off", "-count=1", "-overlay", ovFile, "-run", "^TestVerifNativeReplay$", "-v", hc.Pkg)
 	cmd.Dir = repoDir
-	cmd.Env = append(os.Environ(), "VERIF_REPLAY="+vector, "GOFLAGS=-mod=mod", "GOPROXY=off", "GOTOOLCHAIN=local")
+	cmd.Env = append(os.Environ(), env, "GOFLAGS=-mod=mod", "GOPROXY=off", "GOTOOLCHAIN=local")
 	out, _ := cmd.CombinedOutput()
-	text := string(out)
-	for _, line := range strings.Split(text, "\n") {
-		if strings.HasPrefix(line, "VERIF-NATIVE-RESULT ") {
-			r := strings.TrimPrefix(line, "VERIF-NATIVE-RESULT ")
-			switch {
-			case strings.HasPrefix(r, "assert"), strings.HasPrefix(r, "panic"):
-				return text, "reproduced"
-			default:
-				return text, "not-reproduced"
-			}
+	return string(out), ""
+}
+
+// nativeDifferential runs the sampled vectors of a stub-free harness natively.
+func nativeDifferential(pc *PropCfg, hc *HarnessCfg, tier string, res *sx.HarnessResult, scratch string) (agreed, total int, bad string) {
+	type vec struct {
+		Inputs  []sx.InputRec  `json:"inputs"`
+		Choices []uint64       `json:"choices"`
+		Params  map[string]int `json:"params"`
+	}
+	tc := hc.Quick
+	if tier == "thorough" {
+		tc = mergeTier(hc.Quick, hc.Thorough)
+	}
+	var vecs []vec
+	for _, v := range res.NativeVecs {
+		if v != nil {
+			vecs = append(vecs, vec{v.Inputs, v.Choices, tc.Params})
 		}
 	}
-	return text, "n/a: native replay did not run: " + firstLines(text, 3)
+	if len(vecs) == 0 {
+		return 0, 0, ""
+	}
+	file := filepath.Join(scratch, "batch-"+sanitize(hc.Name)+".json")
+	data, _ := json.Marshal(vecs)
+	os.WriteFile(file, data, 0o644)
+	out, _ := nativeRun(pc, hc, scratch, "VERIF_REPLAY_BATCH="+file, "verifRunNativeBatch")
+	total = len(vecs)
+	seen := 0
+	for _, line := range strings.Split(out, "\n") {
+		if !strings.HasPrefix(line, "VERIF-NATIVE-BATCH ") {
+			continue
+		}
+		seen++
+		f := strings.SplitN(strings.TrimPrefix(line, "VERIF-NATIVE-BATCH "), " ", 2)
+		if len(f) == 2 && f[1] == "ok" {
+			agreed++
+		} else if bad == "" {
+			bad = "vector " + line + " (inputs " + fmt.Sprint(vecs[min(seen-1, len(vecs)-1)].Inputs) + ")"
+		}
+	}
+	if seen != total && bad == "" {
+		bad = fmt.Sprintf("native batch reported %d of %d vectors: %s", seen, total, firstLines(out, 6))
+	}
+	return
 }
 
 func firstLines(s string, n int) string {
@@ -536,7 +610,7 @@ func replay(path string) int {
 
 // ---------- evidence ----------
 
-func writeEvidence(pc *PropCfg, tier string, seed int, cfgs []HarnessCfg, results []*sx.HarnessResult, wall time.Duration, problems []string, nviol int) {
+func writeEvidence(pc *PropCfg, tier string, seed int, cfgs []HarnessCfg, results []*sx.HarnessResult, wall time.Duration, problems []string, nviol int, nativeAgreed int) {
 	level := pc.Level
 	if level == "" {
 		level = "model_checking"
@@ -604,7 +678,8 @@ func writeEvidence(pc *PropCfg, tier string, seed int, cfgs []HarnessCfg, result
 	sort.Strings(stubList)
 	cov["states"] = paths
 	cov["transitions"] = decisions
-	cov["traces_validated_against_impl"] = 0
+	cov["traces_validated_against_impl"] = nativeAgreed
+	cov["traces_validated_rule"] = "stub-free harnesses only: a concrete model of the path condition of each sampled completed path (inputs and choices) is run through the same harness compiled natively against the real build (go test -overlay); counted when the native run completes without failed assertion/assumption and consumes the same choices"
 	cov["samples"] = samples
 	cov["evaluations"] = paths
 	cov["distinct_nontrivial"] = nontrivial
